@@ -334,7 +334,7 @@ impl<'a> Gen<'a> {
             W_CLEAR => OpKind::Clear,
             W_CLONE => {
                 if ncaches < self.prof.max_caches {
-                    return Op::Clone { c, d: ncaches, base: kt };
+                    return Op::Clone { c, d: ncaches, base: kt, from: false };
                 }
                 OpKind::Nop
             }
